@@ -9,8 +9,12 @@ FORMS = [
  ("stm8", "ld_a", "ld A, ", "", 65535, 1),
  ("riscv", "li", "li t0, ", "", 0xffffffff, 1), ("mips32", "li", "li $t0, ", "", 0xffffffff, 1),
  ("z80", "ld_a_n", "ld a, ", "", 255, 1),
+ ("riscv", "call", "call ", "", 0x3fff, 1), ("riscv", "tail", "tail ", "", 0x3fff, 1), ("riscv", "j", "j ", "", 0xffff, 1),
+ ("6809", "lda_x", "lda ", ",x", 65535, 1), ("6809", "lda", "lda ", "", 65535, 1), ("6809", "ldx_y", "ldx ", ",y", 65535, 1), ("6809", "jmp", "jmp ", "", 65535, 1),
+ ("68000", "jmp", "jmp ", "", 0xffffff, 1), ("68000", "move_abs", "move.w ", ", d0", 0xffffff, 1),
+ ("8051", "ljmp", "ljmp ", "", 65535, 1), ("z80", "jp", "jp ", "", 65535, 1),
 ]
-QUICK = {"msp430", "6502", "stm8", "65816", "6800"}
+QUICK = {"msp430", "6502", "stm8", "65816", "6800", "riscv", "6809"}
 
 def jobs(tier):
     js = []
